@@ -241,9 +241,62 @@ def etdrk_symbolic_stub(interp, args, kwargs):
     return None
 
 
+def size_condition(cond):
+    """the branch condition mentions nothing but grid-size symbols (N, Nold, Nnew, ...) and integer functions of them"""
+    ats = [a for a in cond.all_atoms() if a[0] != "ind"]
+    return bool(ats) and all((a[0] == "s" and a in alg.ASSUME_MIN) or (a[0] == "fn" and a[1] in ("mod", "floordiv")) for a in ats)
+
+
+def call_forking(it, f, args, kwargs=None, max_forks=3):
+    """call f; whenever a Python branch on a condition over grid sizes only is undecidable, explore BOTH outcomes.
+    Returns [(assumptions, result | exception)], assumptions = tuple of (condition text, bool)."""
+    out = []
+    base = it.ctx.decide
+
+    def run(assume):
+        def dec(cond, node, file, fn):
+            for c, v in assume:
+                if cond == c:
+                    return v
+                if cond == 1 - c:
+                    return not v
+            return base(cond, node, file, fn) if base is not None else None
+
+        it.ctx.decide = dec
+        # `a % b == 0` assumed true: a // b is a / b
+        it.ctx.divisible = set()
+        for c, v in assume:
+            for q, truth in ((c, v), (1 - c, not v)):
+                if truth and len(q.t) == 1:
+                    ((m, cc),) = q.t.items()
+                    if cc == alg.ONE and len(m) == 1 and m[0][0][0] == "ind" and m[0][0][1] == "eq":
+                        d = m[0][0][2] - m[0][0][3]
+                        for a in d.atoms():
+                            if a[0] == "fn" and a[1] == "mod" and d == Poly.atom(a):
+                                it.ctx.divisible.add((str(a[2]), str(a[3])))
+        try:
+            r = it.call(f, list(args), dict(kwargs or {}))
+            out.append((tuple((str(c), v) for c, v in assume), r))
+        except UndecidableBranch as e:
+            if not size_condition(e.cond) or len(assume) >= max_forks:
+                raise
+            it.ctx.decide = base
+            run(assume + [(e.cond, False)])
+            run(assume + [(e.cond, True)])
+        except (RepoRaise, ShapeError) as e:
+            out.append((tuple((str(c), v) for c, v in assume), e))
+        finally:
+            it.ctx.decide = base
+
+    run([])
+    return out
+
+
 def generic_decide(cond, node, file, fn):
     """formula checks treat symbolic parameters as generic values: `param == constant` is False.
     (That such a Python-level branch exists at all is C06's business, not the formula checks'.)"""
+    if size_condition(cond):
+        return None  # a case distinction on grid sizes is not "generic vs special value": callers fork (call_forking)
     if len(cond.t) == 1:
         ((m, c),) = cond.t.items()
         if c == alg.ONE and len(m) == 1 and m[0][0][0] == "ind" and m[0][0][1] == "eq":
